@@ -10,7 +10,9 @@ RULE = ('burst: seeded E-mix cases biased to build up the send queue: publishers
         'stream with the order at Transport.send_frame, reassembling fragment runs. non-trivial = a run in which some '
         'stream had >= 2 frames queued while a fragmented frame of that stream was still being sent; distinct by case '
         'descriptor digest.')
-ASSUMPTIONS = ['queue order is observed by wrapping the public send_frame / send_priority_frame of each endpoint instance',
+ASSUMPTIONS = ['the order in which frames are handed to an endpoint is observed by wrapping send_request / send_frame / '
+               'send_priority_frame of each endpoint instance (a frame the endpoint retains for a lease counts from '
+               'the moment it was handed over)',
                'SETUP may overtake (priority insert) on stream 0 only']
 DECIDING_REQUIRED = ('fragment_runs_checked', 'frames_behind_unfinished_run', 'frames_order_checked')
 BUDGET_S = {'quick': 100, 'thorough': 1800}
@@ -48,8 +50,11 @@ def monitor(world):
         wit.append({'clause': clause, 'detail': d})
 
     open_runs = {}
+    # the order to compare the wire with is the order in which the handlers SUBMITTED the frames to the endpoint;
+    # with lease gating a frame may enter the send queue later than that
+    handed = 'submit' if any(e['kind'] == 'submit' for e in world.events) else 'queue'
     for e in world.events:
-        if e['kind'] == 'queue':
+        if e['kind'] == handed:
             f = e['f']
             key = (e['ep'], f.get('sid', 0))
             if e.get('priority'):
@@ -141,6 +146,9 @@ def gen_case(rng, tier):
     from ..apps import MAX_N
     frags = (64, 65, 70, 100, 128)
     cfg = mixgen.draw_config(rng, links_allowed=mixgen.WITH_WS, frags=frags)
+    if rng.random() < 0.15:
+        # a lease-honouring client: its requests wait for the server's (small, then unlimited) leases
+        cfg['lease'] = mixgen.draw_leases(rng)
     for k in ('knobs_c', 'knobs_s'):
         if rng.random() < 0.5:
             cfg[k].drain = ('virtual', rng.choice([1e-4, 1e-3, 0.01, 0.1]))
@@ -256,9 +264,9 @@ def run_case(gen, idx, rng, tier):
         tr = []
         from ..minicodec import brief
         for e in world.events:
-            if e['kind'] in ('queue', 'wire') and e['ep'] == ep and e['f'].get('sid') == sid and \
-                    (e['kind'] == 'queue' or e['dir'] == 'send'):
-                tr.append('%.6f %s %s' % (e['t'], 'queue' if e['kind'] == 'queue' else 'wire ', brief(e['f'])))
+            if e['kind'] in ('submit', 'wire') and e['ep'] == ep and e['f'].get('sid') == sid and \
+                    (e['kind'] == 'submit' or e['dir'] == 'send'):
+                tr.append('%.6f %s %s' % (e['t'], 'submit' if e['kind'] == 'submit' else 'wire  ', brief(e['f'])))
         w['detail']['trace'] = tr[:60]
     nontrivial = st['frames_behind_unfinished_run'] > 0
     ev = {'wire_frames': sum(1 for e in world.events if e['kind'] == 'wire'),
